@@ -716,17 +716,19 @@ Definition tkf (c : tcase) : N :=
                                                        (* F7a: not a fixed point of the constructor *)
       else if has_bs_x lex then 2                      (* F7b *)
       else if has_bs_quote_multiline lex then 5        (* F7e *)
+      else if mem 9 lex then 7                         (* F7h: the SPARQL parser expands a raw TAB (conformance flag 3 only) *)
       else 0
   | _ => 0
   end.
 
 Definition tmodel_obs (c : tcase) : tobs :=
   let t := t_term c in
-  let flag := if N.eqb (tkf c) 0 then Some true else None in
+  let flag := if N.eqb (tkf c) 0 || N.eqb (tkf c) 7 then Some true else None in
+  let flag3 := if N.eqb (tkf c) 0 then Some true else None in
   {| t_n3 := n3 t;
      t_from := match n3 t with Some s => from_n3 (t_orc c) s | None => WRaise end;
      t_pickle := unpickle (t_orc c) t;
-     t_flags := [flag; flag; flag] |}.
+     t_flags := [flag; flag; flag3] |}.
 
 Definition tobs_eqb (m i : tobs) : bool :=
   ostr_eqb (t_n3 m) (t_n3 i) && wres_eqb (t_from m) (t_from i) && wres_eqb (t_pickle m) (t_pickle i)
